@@ -49,7 +49,8 @@ PROPS = {
 PROBES = {'C03': ['stopped_by_max_iterations', 'converged_at_min_iterations', 'converged_in_between', 'condition_false', 'subgroup_condition_false',
                   'update_nnps_changed_neighbours', 'stop_idx_below_real', 'real_false_with_ghosts', 'named_start_stop',
                   'sim_schedule', 'several_destinations', 'python_callbacks_compared', 'periodic_domain', 'ghosts_refreshed',
-                  'second_evaluation_after_update_particle_arrays', 'stage_0_of_a_multi_stage_problem']}
+                  'second_evaluation_after_update_particle_arrays', 'stage_0_of_a_multi_stage_problem',
+                  'empty_array_as_source_or_destination']}
 
 
 # ----------------------------------------------------------------------------
@@ -207,6 +208,8 @@ def _gen_arrays(t, prog, dim):
         nghost = t.choice([0, 0, 2, 4])
         if 'n' in hint:
             n, nghost = int(hint['n']), int(hint['nghost'])
+        elif a > 0 and t.bool(0.1):
+            n, nghost = 0, 0        # an array that holds no particle (yet): still a legal source and destination
         pts = []
         for i in range(n + nghost):
             pts.append([round(0.1 * t.int(0, 12) + 0.013 * a + 0.0007 * i, 6), round(0.1 * t.int(0, 3), 6) if dim == 2 else 0.0,
@@ -251,6 +254,9 @@ def sig_of(sc):
 
 
 # ----------------------------------------------------------------------------
+probe_empty = [False]
+
+
 def make_arrays(sc, prog):
     from pysph.base.utils import get_particle_array
     out = []
@@ -265,9 +271,11 @@ def make_arrays(sc, prog):
         except Exception:
             raise InvalidScenario('array data')
         n = len(pts)
-        if n == 0 or not 0 < nreal <= n or not h > 0:
+        if not 0 <= nreal <= n or (n > 0 and nreal == 0) or not h > 0:
             raise InvalidScenario('array size')
-        arr = np.array(pts).reshape(n, 3)
+        arr = np.array(pts, dtype=float).reshape(n, 3)
+        if n == 0:
+            probe_empty[0] = True
         tag = np.zeros(n, dtype=np.int32)
         tag[nreal:] = 2
         pa = get_particle_array(name=name, x=arr[:, 0].copy(), y=arr[:, 1].copy(), h=np.ones(n) * h, m=np.ones(n), tag=tag)
@@ -599,7 +607,10 @@ def execute(sc, prop):
             s.update(sig)
             viol.append(dict(invariant=inv, detail=detail, sig=s))
     rs = 2.0
+    probe_empty[0] = False
     arrays = make_arrays(sc, prog)
+    if probe_empty[0]:
+        probe('empty_array_as_source_or_destination')
     ref_arrays = copy.deepcopy(arrays)
     for pa_new, pa_old in zip(ref_arrays, arrays):
         pa_new.set_name(pa_old.name)
@@ -613,7 +624,7 @@ def execute(sc, prop):
         return DomainManager(xmin=0.0, xmax=1.3, periodic_in_x=True)
     for pa in arrays:
         xs = pa.get('x', only_real_particles=False)
-        if periodic and (xs.min() < 0 or xs.max() > 1.3):
+        if periodic and len(xs) and (xs.min() < 0 or xs.max() > 1.3):
             raise InvalidScenario('outside the periodic box')
     env_ref = Env(sc)
     _, mirror_ref = build_groups(prog, env_ref, dx)
@@ -634,7 +645,7 @@ def execute(sc, prop):
             pa_new.set_name(pa_old.name)
         for pa in arrays2:
             xs = pa.get('x', only_real_particles=False)
-            if periodic and (xs.min() < 0 or xs.max() > 1.3):
+            if periodic and len(xs) and (xs.min() < 0 or xs.max() > 1.3):
                 raise InvalidScenario('outside the periodic box')
         ref_nnps2 = LinkedListNNPS(dim=dim, particles=ref_arrays2, radius_scale=rs, domain=mk_domain()) if periodic else None
         interp2 = Interp(ref_arrays2, env_ref, tt + dt, dt, rs, dim, probe, domain_nnps=ref_nnps2)
